@@ -18,14 +18,17 @@ def prepare(ctx):
 
 
 class Case:
-    __slots__ = ("id", "w", "t", "opts", "tag", "pos", "inner", "model", "go", "crash")
+    __slots__ = ("id", "w", "t", "opts", "tag", "pos", "inner", "model", "go", "crash", "io", "chunk")
 
-    def __init__(self, w, t, opts, tag, pos="top", inner=None):
+    def __init__(self, w, t, opts, tag, pos="top", inner=None, io=""):
         self.w, self.t, self.opts, self.tag, self.pos, self.inner = w, t, opts, tag, pos, inner
         self.model, self.go, self.crash = None, None, None
+        self.chunk = None
+        self.io = io      # "" | "reader" (stream decoder, buffer refilled afterwards) | "overwrite" (input slice reused)
 
     def to_replay_json(self):
-        return {"w": wire_to_json(self.w), "t": self.t, "opts": self.opts.go(), "tag": self.tag, "pos": self.pos}
+        return {"w": wire_to_json(self.w), "t": self.t, "opts": self.opts.go(), "tag": self.tag, "pos": self.pos, "io": self.io,
+                "chunk": self.chunk if self.chunk is not None else getattr(self, "id", 0) % 9}
 
 
 def _tup(x):
@@ -70,8 +73,10 @@ def wire_to_json(w):
 
 def case_from_replay(d):
     o = d["opts"]
-    return Case(_wire_from_json(d["w"]), d["t"], G.Opts(o["simple"], o["long"], o["real"], o["simap"], o["structval"], o["listslice"]),
-                d.get("tag", "replay"), d.get("pos", "top"))
+    c = Case(_wire_from_json(d["w"]), d["t"], G.Opts(o["simple"], o["long"], o["real"], o["simap"], o["structval"], o["listslice"]),
+             d.get("tag", "replay"), d.get("pos", "top"), io=d.get("io", ""))
+    c.chunk = d.get("chunk")
+    return c
 
 
 # ---------------------------------------------------------------------------------------- positions
@@ -152,6 +157,21 @@ def build_cases(ctx, env):
         for pname, w2, t2 in positions(w, t):
             if pname in ("ptr", "mapval"):
                 continue   # reference indices shift inside a wrapper
+    # the decoded value must not share memory with the decoder's input: the same cases through a stream decoder whose
+    # buffer is refilled after the value, and through NewDecoder on a slice that is overwritten after decoding
+    def keeps_bytes(t):
+        ts = G.type_sexp(t)
+        return any(x in ts for x in ("(string)", "(bytes)", "(iface)", "(bigint)", "(bigfloat)", "(bigrat)", "(uuid)", "(struct", "(list)"))
+    base = [c for c in cases if c.opts is default and keeps_bytes(c.t)]
+    stride = 2 if quick else 1
+    for i, c in enumerate(base):
+        if c.tag.split(":")[0] in ("matrix", "pos") and i % stride:
+            continue
+        cases.append(Case(c.w, c.t, default, "io-reader:" + c.w[0], pos=c.pos, io="reader"))
+        if c.tag.split(":")[0] in ("matrix", "pos"):
+            cases.append(Case(c.w, c.t, default, "io-overwrite:" + c.w[0], pos=c.pos, io="overwrite"))
+    for c in [c for c in cases if c.opts is refopt and c.tag.startswith("refs:")]:
+        cases.append(Case(c.w, c.t, refopt, "io-reader:" + c.w[0], io="reader"))
     # random structured values: types of depth <= 3 and wire trees shaped by them
     rg = G.RandGen(rng, env["structs"])
     for i in range(1500 if quick else 40000):
@@ -254,6 +274,9 @@ def execute(ctx, env, cases):
         if c.model.get("hex") is None:
             continue
         d = {"id": c.id, "op": "dec", "t": c.t, "hex": c.model["hex"]}
+        if c.io:
+            d["io"] = c.io
+            d["chunk"] = c.chunk if c.chunk is not None else c.id % 9
         d.update(c.opts.go())
         send.append(d)
     obs_by_id, crashes = hv.run_harness_resilient("c06", send, timeout=1800, max_crashes=60)
@@ -303,7 +326,7 @@ def agree(c):
 
 
 def short(c):
-    return {"type": G.type_sexp(c.t), "wire": G.wire_sexp(c.w), "hex": c.model.get("hex"), "opts": c.opts.go(),
+    return {"type": G.type_sexp(c.t), "wire": G.wire_sexp(c.w), "hex": c.model.get("hex"), "opts": c.opts.go(), "io": c.io,
             "model": {k: c.model.get(k) for k in ("out", "val", "cls", "site", "why", "msg") if c.model.get(k) is not None},
             "go": ({k: c.go.get(k) for k in ("out", "val", "msg") if c.go.get(k)} if c.go else None),
             "crash": (c.crash[1][-300:] if c.crash else None)}
@@ -360,6 +383,15 @@ def finding_key(c, verdict):
         if c.model.get("site") == "mapcopy":
             return "c06:reference-to-object-map-corrupts-typed-map", "a reference to an object that was read as map[string]interface{}, decoded into a typed map: mapCopy reads the map header as a pointer"
         return "c06:panic:" + (c.model.get("site") or "unknown") + ":" + c.w[0], "the decoder panics on a well-formed stream"
+    if c.io and verdict in ("missingerror", "wrongvalue", "spuriouserror") and not agree(c):
+        if _has_tag(c.w, "s") or _has_tag(c.w, "b"):
+            return ("c06:string-window-overwritten-by-refill-before-use",
+                    "simple mode, stream decoder: ReadUnsafeString / readUnsafeBytes return a window of the read buffer and then Skip() the "
+                    "closing quote; when that Skip refills the buffer the window is overwritten BEFORE the string is parsed or copied "
+                    "(strconv / big / uuid / [N]byte destinations): wrong value or spurious error")
+        return ("c06:decoded-value-shares-the-read-buffer:" + c.io,
+                "a decoded string / byte slice still points into the decoder's input: it changes when the stream decoder refills its "
+                "buffer (reader) or when the caller reuses the input slice (overwrite)")
     if verdict in ("missingerror", "wrongvalue"):
         ints = _ints_in(c.w, [])
         # an object of a registered class decoded through interface{} has typed (integer) fields as well
@@ -433,6 +465,17 @@ def project(pos, val):
 def judge(ctx, env, cases, verbose=False):
     bad = 0
     unmodelled = {}
+    # how the input reaches the decoder must not matter: the implementation's result from a stream decoder / a reused
+    # input slice against its own result from NewDecoder on the same bytes
+    plain = {}
+    for c in cases:
+        if not c.io and c.go:
+            plain[(G.wire_sexp(c.w), G.type_sexp(c.t), c.opts.key())] = (go_class(c), c.go.get("val"))
+    for c in cases:
+        if c.io and c.go and c.model.get("mv"):
+            p = plain.get((G.wire_sexp(c.w), G.type_sexp(c.t), c.opts.key()))
+            if p is not None and p != (go_class(c), c.go.get("val")) and (c.model.get("gv") or c.model.get("mv")) in ("ok", "unspec"):
+                c.model["gv"] = "wrongvalue"
     for c in cases:
         m = model_class(c)
         ctx.bump("cases_by_family", c.tag.split(":")[0])
@@ -442,12 +485,13 @@ def judge(ctx, env, cases, verbose=False):
             unmodelled[c.model.get("why", m)] = unmodelled.get(c.model.get("why", m), 0) + 1
             ctx.bump("unmodelled")
             continue
-        canon = c.opts.key() + "|" + G.type_sexp(c.t) + "|" + G.wire_sexp(c.w)
+        canon = c.io + c.opts.key() + "|" + G.type_sexp(c.t) + "|" + G.wire_sexp(c.w)
         ctx.count_case(canon, nontrivial=(c.w[0] not in ("n",)))
         ctx.sample("%s <- %s : %s" % (G.type_sexp(c.t), c.model.get("hex"), c.model.get("val") or m))
         if verbose:
             print(json.dumps(short(c))[:1500])
-        if not agree(c) and not (m == "err" and go_class(c) == "panic"):
+        if not agree(c) and not (m == "err" and go_class(c) == "panic") and not (
+                c.io and (c.model.get("gv") in ("wrongvalue", "spuriouserror", "missingerror"))):
             bad += 1
             key = "c06:correspondence:%s:%s" % (c.tag.split(":")[0], c.w[0])
             ctx.report(key, "model and implementation disagree (%s into %s: model %s, go %s)" % (
@@ -459,10 +503,10 @@ def judge(ctx, env, cases, verbose=False):
     # "the outcome is the same in every position": the implementation's own results, top level against wrapped
     tops = {}
     for c in cases:
-        if c.pos == "top" and c.go:
+        if c.pos == "top" and c.go and not c.io:
             tops[(G.wire_sexp(c.w), G.type_sexp(c.t), c.opts.key())] = c
     for c in cases:
-        if c.inner is None or not c.go or c.inner[0][0] == "n":
+        if c.inner is None or c.io or not c.go or c.inner[0][0] == "n":
             continue
         top = tops.get((G.wire_sexp(c.inner[0]), G.type_sexp(c.inner[1]), c.opts.key()))
         if top is None:
